@@ -1503,8 +1503,8 @@ def run_case_w(run, drv, pending, case, tmpdir, tag, tier_quick=True):
         with warnings.catch_warnings(), numpy.errstate(divide="raise", invalid="raise"), decimal.localcontext() as dctx:
             # (round 7, class k: numpy raises on divide / invalid, the decimal context has 2..6 digits)
             dctx.prec = 2 + len(case["rows"]) % 5
-            for cat_ in (RuntimeWarning, UserWarning, FutureWarning):
-                warnings.simplefilter("error", cat_)
+            # a WARNING alone is never a violation (a harmless rewrite may make a third-party library warn, e.g. mercantile's
+            # FutureWarning at the east edge): only numpy's divide / invalid ERROR state and the decimal context are forced
             return run_case(run, drv, pending, case, tmpdir, tag, tier_quick)
     return run_case(run, drv, pending, case, tmpdir, tag, tier_quick)
 
